@@ -65,7 +65,25 @@ def run(eng, rep, tier):
         for name, f in sorted(rocls.methods.items()):
             lits = [c for c in ast.walk(f.node) if isinstance(c, ast.Constant) and c.value == "S"
                     and c is not _doc(f.node)]
-            if lits:
+            # the failure is the lookup: `tree["S"]` raises KeyError when no rule mentions S.  A lookup that only happens
+            # under `"S" in tree` (or through .get) cannot fail - the literal is then a heuristic root, not a defect
+            from .flow import _path_to
+
+            def _guarded(sub):
+                cont = ast.unparse(sub.value)
+                for anc in _path_to(f.node, sub):
+                    if isinstance(anc, (ast.If, ast.While)) and any(
+                            isinstance(c, ast.Compare) and len(c.ops) == 1 and isinstance(c.ops[0], ast.In) and
+                            isinstance(c.left, ast.Constant) and c.left.value == "S" and ast.unparse(c.comparators[0]) == cont
+                            for c in ast.walk(anc.test)) and any(x is sub for b in anc.body for x in ast.walk(b)):
+                        return True
+                return False
+            lookups = [x for x in ast.walk(f.node) if isinstance(x, ast.Subscript) and isinstance(x.slice, ast.Constant)
+                       and x.slice.value == "S" and isinstance(x.ctx, ast.Load)]
+            if lits and lookups and all(_guarded(x) for x in lookups):
+                rep.holds("R9", "C17.1", f.qname, "literal-start-symbol",
+                          "the literal `S` is only looked up where it is known to be present (heuristic root, no KeyError)")
+            elif lits:
                 rep.violation("R9", "C17.1", f.qname, "literal-start-symbol",
                               "%s uses the literal `S` as the root of its ordering (%d places) instead of the grammar's start "
                               "variable: a grammar that does not mention `S` fails with KeyError" % (name, len(lits)),
